@@ -14,6 +14,8 @@ use crate::{
 #[derive(Debug, Clone, Serialize, Deserialize)]
 pub enum Corr {
     Truncate(u16),
+    /// the stream ends after exactly this many bytes (a read that fills the buffer to the brim)
+    TruncateAt(usize),
     Flip { at: u16, xor: u8 },
     Insert { at: u16, bytes: B },
     Delete { at: u16, n: u8 },
@@ -27,6 +29,7 @@ pub fn apply(mut s: Vec<u8>, c: &Corr) -> Vec<u8> {
             let n = pick_idx(*at, s.len() + 1);
             s.truncate(n);
         }
+        Corr::TruncateAt(n) => s.truncate(*n),
         Corr::Flip { at, xor } => {
             if !s.is_empty() {
                 let i = pick_idx(*at, s.len());
@@ -122,6 +125,7 @@ pub fn edge_line() -> impl Strategy<Value = B> {
 pub fn corruption() -> impl Strategy<Value = Corr> {
     prop_oneof![
         3 => any::<u16>().prop_map(Corr::Truncate),
+        2 => prop_oneof![Just(4095usize), Just(4096), Just(4097), Just(8191), Just(8192), Just(8193), Just(16384), Just(32768), Just(65536)].prop_map(Corr::TruncateAt),
         3 => (any::<u16>(), any::<u8>()).prop_map(|(at, xor)| Corr::Flip { at, xor }),
         2 => (any::<u16>(), prop::collection::vec(any::<u8>(), 1..4usize)).prop_map(|(at, b)| Corr::Insert { at, bytes: B(b) }),
         2 => (any::<u16>(), 0..3u8).prop_map(|(at, n)| Corr::Delete { at, n }),
